@@ -530,7 +530,7 @@ static void do_dec(const par_t *p)
     else if (f == 10) { ps = 1; off[0] = 0; nch = 1; pf = TJPF_GRAY; grp = "gray"; name = "GRAY"; }
     else { ps = 4; off[0] = 0; off[1] = 1; off[2] = 2; off[3] = 3; nch = 4; pf = TJPF_CMYK; grp = "cmyk"; name = "CMYK"; j = jpg4; jl = jlen4; }
     if (f == 11 && !jpg4) continue;
-    if (f == 10 && (p->lossless || p->cspace == TJCS_RGB)) continue;   /* RGB JPEG -> gray is a lossy conversion, not "the luminance component" */
+    if (f == 10 && p->lossless) continue;   /* lossless colour -> gray is refused by the library */
     tj3DecompressHeader(d, j, jl);
     tj3Set(d, TJPARAM_FASTDCT, p->flags & 1);
     tj3Set(d, TJPARAM_FASTUPSAMPLE, (p->flags >> 4) & 1);
@@ -554,17 +554,40 @@ static void do_dec(const par_t *p)
         free(buf); free(orig);
       }
   }
+  if (!p->lossless && p->cspace == TJCS_RGB) {
+    /* JPEG stored as RGB: its luminance is the documented fixed-point Y of the decoded R,G,B */
+    void *rgb = malloc(((size_t)ow * oh * 3 + 8) * 2);
+    uint64_t hh = FNV0; int x;
+    tj3DecompressHeader(d, jpg, jlen);
+    tj3Set(d, TJPARAM_FASTDCT, p->flags & 1);
+    tj3Set(d, TJPARAM_FASTUPSAMPLE, (p->flags >> 4) & 1);
+    tj3SetScalingFactor(d, sf);
+    tj3Set(d, TJPARAM_BOTTOMUP, 0);
+    if (tj_decompress(d, bits, jpg, jlen, rgb, 0, TJPF_RGB)) printf(" gray:lumaOfRGB=ERR(%s)", tjerr(d));
+    else {
+      for (x = 0; x < ow * oh; x++) {
+        long r = gets_(rgb, bits, (size_t)x * 3), g = gets_(rgb, bits, (size_t)x * 3 + 1), b = gets_(rgb, bits, (size_t)x * 3 + 2);
+        hh = fnv_int(hh, (int)((19595L * r + 38470L * g + 7471L * b + 32768L) >> 16));
+      }
+      printf(" gray:lumaOfRGB=%016llx.0.0", (unsigned long long)hh);
+    }
+    free(rgb);
+  }
   tj3Destroy(d);
-  /* libjpeg API: 11 colour spaces into scattered rows; then raw-data Y */
-  for (f = 0; f < 12; f++) {
+  /* libjpeg API: 11 colour spaces into scattered rows; raw-data Y; JCS_GRAYSCALE output */
+  for (f = 0; f < 13; f++) {
+    static const fmt_t GRAYF = { "JGRAY", JCS_GRAYSCALE, 0, 0, 0, -1, 1 };
     struct jpeg_decompress_struct dd; struct jpeg_error_mgr e;
-    int raw = (f == 11), ps = raw ? 1 : LJF[f].ps, stride, i;
+    int raw = (f == 11), gout = (f == 12);
+    const fmt_t F = gout ? GRAYF : LJF[f < 11 ? f : 0];
+    int ps = raw ? 1 : F.ps, stride, i;
+    if (gout && p->lossless) continue;
     void *buf = NULL, *orig = NULL; void **rows = NULL; int *perm = NULL;
     void *planes[4] = { 0, 0, 0, 0 }; void **prow[4] = { 0, 0, 0, 0 };
     if (raw && (p->lossless || p->cspace == TJCS_RGB || sfi != 0)) continue;
     dd.err = mkerr(&e);
     if (setjmp(jb)) {
-      printf(" lj:%s=ERR(%d)", raw ? "rawY" : LJF[f].name, last_err);
+      printf(" lj:%s=ERR(%d)", raw ? "rawY" : F.name, last_err);
     } else {
       jpeg_create_decompress(&dd);
       jpeg_mem_src(&dd, jpg, (unsigned long)jlen);
@@ -572,7 +595,7 @@ static void do_dec(const par_t *p)
       dd.dct_method = (p->flags & 1) ? JDCT_FASTEST : JDCT_ISLOW;
       dd.do_fancy_upsampling = !((p->flags >> 4) & 1);
       if (!p->lossless) { dd.scale_num = sf.num; dd.scale_denom = sf.denom; }
-      if (raw) dd.raw_data_out = TRUE; else dd.out_color_space = (J_COLOR_SPACE)LJF[f].id;
+      if (raw) dd.raw_data_out = TRUE; else dd.out_color_space = (J_COLOR_SPACE)F.id;
       jpeg_start_decompress(&dd);
       if (raw) {
         int ci, rg = dd.max_v_samp_factor * dd.min_DCT_scaled_size;
@@ -619,16 +642,18 @@ static void do_dec(const par_t *p)
         for (y = 0; y < (int)dd.output_height; y++) {
           size_t rs = (size_t)perm[y] * stride;
           for (x = 0; x < (int)dd.output_width; x++) {
-            hh = fnv_int(hh, gets_(buf, bits, rs + (size_t)x * ps + LJF[f].r));
-            hh = fnv_int(hh, gets_(buf, bits, rs + (size_t)x * ps + LJF[f].g));
-            hh = fnv_int(hh, gets_(buf, bits, rs + (size_t)x * ps + LJF[f].b));
-            if (LJF[f].a >= 0 && gets_(buf, bits, rs + (size_t)x * ps + LJF[f].a) != amax) ba++;
+            hh = fnv_int(hh, gets_(buf, bits, rs + (size_t)x * ps + F.r));
+            if (!gout) {
+              hh = fnv_int(hh, gets_(buf, bits, rs + (size_t)x * ps + F.g));
+              hh = fnv_int(hh, gets_(buf, bits, rs + (size_t)x * ps + F.b));
+            }
+            if (F.a >= 0 && gets_(buf, bits, rs + (size_t)x * ps + F.a) != amax) ba++;
           }
           for (k = 0; k < (size_t)dd.output_width * ps; k++) inside[rs + k] = 1;
         }
         for (k = 0; k < n; k++) if (!inside[k] && gets_(buf, bits, k) != gets_(orig, bits, k)) tc++;
         free(inside);
-        printf(" tj:%s=%016llx.%d.%d", LJF[f].name, (unsigned long long)hh, ba, tc);
+        printf(" %s:%s=%016llx.%d.%d", gout ? "gray" : "tj", F.name, (unsigned long long)hh, ba, tc);
       }
       jpeg_finish_decompress(&dd);
     }
